@@ -365,7 +365,12 @@ class TCPTransport(Transport):
             self._readonlyNodesCounter += 1
 
         self._unknownConnections.discard(conn)
+        oldConn = self._connections.get(node, None)
         self._connections[node] = conn
+        if oldConn is not None and oldConn is not conn:
+            # The node connected anew: its previous connection is stale and must not deliver
+            # (or accept) anything any more. It is no longer registered, so this is silent.
+            oldConn.disconnect()
         conn.setOnMessageReceivedCallback(functools.partial(self._onMessageReceived, node))
         if not readonly:
             self._onNodeConnected(node)
